@@ -34,6 +34,7 @@ import hashlib
 import io
 import itertools
 import json
+import types
 from typing import Any, Callable, Iterator, Optional
 
 from bounded import _c13_oracle as O
@@ -216,16 +217,23 @@ def run_pipeline(scn: dict[str, Any]) -> dict[str, str]:
         original = cp.run_hmmsearch
         cp.run_hmmsearch = lambda *args, **kwargs: fake
         stage = "detection-json"
+        # through the module's own entry point, as main does: hmm_detection.run_on_record detects, annotates the
+        # genes and wraps the rule results together with the names of the enabled rules (all saved to JSON)
+        detection = mod["hmm_detection"]
+        options = types.SimpleNamespace(hmmdetection_strictness="relaxed", hmmdetection_limit_to_rules=[],
+                                        hmmdetection_limit_to_rule_names=[], hmmdetection_limit_to_categories=[])
+        original_ruleset = detection.get_ruleset
+        detection.get_ruleset = lambda *args, **kwargs: ruleset
         try:
-            results = cp.detect_protoclusters_and_signatures(rec, ruleset)
+            wrapped = detection.run_on_record(rec, None, options)
         finally:
             cp.run_hmmsearch = original
-        out["detection-json"] = json.dumps(results.to_json())
+            detection.get_ruleset = original_ruleset
+        results = wrapped.rule_results
+        out["detection-json"] = json.dumps(wrapped.to_json())
         stage = "protoclusters"
         for proto in results.protoclusters:
             rec.add_protocluster(proto)
-        results.annotate_cds_features()
-        wrapped = mod["hmm_detection"].HMMDetectionResults(rec.id, results, ["ra", "rb", "rab", "rc", "rac"], "relaxed")
         stage = _finish_record(rec, out, {"antismash.detection.hmm_detection": wrapped})
     except Exception as err:  # pylint: disable=broad-except
         if "detection-json" not in out:
